@@ -161,6 +161,15 @@ func checkC09(p *Prog, r *Report) {
 						}
 					}
 					if !src {
+						if t, isAddr := fmtPrintsAddress(p, x); isAddr {
+							nSrc++
+							if sink := flowsToSink(p, fn, x); sink != "" {
+								r.Fail(kp("FLOW", fname+"#formatted-address@"+blockTag(fn, b)), "no memory address is rendered into consensus-visible text", p.Pos(x.Pos()),
+									"the default format of "+shortPkg(t.String())+" prints a pointer below its top level as an address (a pointer field, or an interface field holding a pointer without a String method); the text is "+sink+": it differs between nodes and between runs")
+							}
+						}
+					}
+					if !src {
 						if why := zoneDependentUse(x); why != "" {
 							nSrc++
 							nZone++
@@ -319,6 +328,7 @@ func checkC09(p *Prog, r *Report) {
 	checkNoUnorderedEncoding(p, r, kp, scope)
 
 	checkMapsNotMutatedWhileRanged(p, r, kp)
+	checkWiringMapRanges(p, r, kp)
 	// D2 map ranges
 	nMap := 0
 	for _, fn := range scope {
@@ -435,6 +445,26 @@ func mapLoopOrderSensitive(p *Prog, fn *ssa.Function, rg *ssa.Range) string {
 						return "the walk returns a value computed from the entry it stopped at (at " + p.Pos(ret.Pos()) + "): with several qualifying entries the result depends on map order"
 					}
 				}
+			}
+		}
+	}
+	// what a body stores per entry is one write under the entry's own key: a callee that writes several entries, or reads one
+	// family and writes another (a counter kept "in step" with the entries), makes the last entry visited win
+	for _, b := range fn.Blocks {
+		if !inLoop(b) {
+			continue
+		}
+		for _, in := range b.Instrs {
+			c, ok := in.(ssa.CallInstruction)
+			if !ok {
+				continue
+			}
+			g := c.Common().StaticCallee()
+			if g == nil || !InModule(g) || p.IsGenerated(g) {
+				continue
+			}
+			if why := compoundStoreEffect(p, resolveBound(g)); why != "" {
+				return "per entry the body calls " + FuncName(g) + " (at " + p.Pos(c.Pos()) + "), which " + why + ": entries that share that other key overwrite each other in map order"
 			}
 		}
 	}
@@ -862,4 +892,76 @@ func errorOnlyAborts(fn *ssa.Function, scope []*ssa.Function) bool {
 		}
 	}
 	return n > 0
+}
+
+
+// checkWiringMapRanges: the map classification of D2 applied to the application's set-up code (app/, outside the upgrade
+// packages): what New, BlockedAddresses, GetMaccPerms … compute from a map is configuration of this process, and must be the
+// same in every process.
+func checkWiringMapRanges(p *Prog, r *Report, kp func(string, string) string) {
+	n, nBad := 0, 0
+	for _, fn := range p.ModFuncs {
+		if fn.Blocks == nil || p.IsGenerated(fn) || !InPkgs(fn, "app") || InPkgs(fn, "app/upgrades") || InPkgs(fn, "app/params") {
+			continue
+		}
+		for _, b := range fn.Blocks {
+			for _, in := range b.Instrs {
+				rg, ok := in.(*ssa.Range)
+				if !ok {
+					continue
+				}
+				if _, isMap := rg.X.Type().Underlying().(*types.Map); !isMap {
+					continue
+				}
+				n++
+				if why := mapLoopOrderSensitive(p, fn, rg); why != "" {
+					nBad++
+					r.Fail(kp("ORDER", FuncName(fn)+"#wiring-range-over-map@"+blockTag(fn, b)), "a range over a Go map in the application's set-up code has an order-insensitive body", p.Pos(rg.Pos()),
+						"the configuration computed at start-up depends on map iteration order: "+why+" — two processes (two nodes, or one node before and after a restart) are configured differently")
+				}
+			}
+		}
+	}
+	if nBad == 0 {
+		r.OK(kp("ORDER", "wiring-range-over-map#none"), "a range over a Go map in the application's set-up code has an order-insensitive body", "app/", fmt.Sprintf("%d map ranges in app/, all order-insensitive", n))
+	}
+	r.Floor("map-ranges-in-app-wiring", n, 2)
+}
+
+
+var storeOpsByFn map[*ssa.Function][]StoreOp
+
+// compoundStoreEffect: the store operations reachable from g are more than keyed writes of the entry — several writes, one of
+// them to a family g also reads ("" otherwise).
+func compoundStoreEffect(p *Prog, g *ssa.Function) string {
+	if storeOpsByFn == nil {
+		storeOpsByFn = map[*ssa.Function][]StoreOp{}
+		for _, so := range p.StoreOps() {
+			storeOpsByFn[so.Fn] = append(storeOpsByFn[so.Fn], so)
+		}
+	}
+	reach := p.ReachFrom([]*ssa.Function{g}, func(f *ssa.Function) bool { return InModule(f) && !p.IsGenerated(f) })
+	var writes, reads []StoreOp
+	for _, f := range reach.Order {
+		for _, so := range storeOpsByFn[f] {
+			switch so.Op {
+			case "Set", "Delete":
+				writes = append(writes, so)
+			default:
+				reads = append(reads, so)
+			}
+		}
+	}
+	// several writes of which one goes to a family the callee also reads: a read-modify-write of a second entry per visited
+	// entry (a counter or summary kept "in step"). Two plain writes (an entry and its index record) are keyed by the entry alone.
+	if len(writes) > 1 {
+		for _, w := range writes {
+			for _, rd := range reads {
+				if (rd.Op == "Get" || rd.Op == "Has") && PrefixName(rd.Prefix) == PrefixName(w.Prefix) {
+					return fmt.Sprintf("performs %d store writes, one of them a read-modify-write under %s (%s in %s after %s in %s)", len(writes), PrefixName(w.Prefix), w.Op, FuncName(w.Fn), rd.Op, FuncName(rd.Fn))
+				}
+			}
+		}
+	}
+	return ""
 }
